@@ -144,6 +144,14 @@ def run_case(seed):
         # a slab: every box is one cell thick at level 0 (2 at level 1 ...) in one direction
         gen.flatten_axis(pf, rm.randrange(3))
     count(f"slab one cell thick={'slab_axis' in pf.meta}")
+    if pf.nlevels >= 2 and rm.random() < 0.25:
+        # refinement ratios other than 2 / differing between levels (the boxes keep their index ranges: they sit in the low
+        # part of the larger index space; chef copies the mesh, it does not interpret it)
+        pf.ratios = rm.choice([[4], [2, 4], [4, 2], [4, 4]])[:pf.nlevels - 1] if pf.nlevels <= 3 else [2, 4, 2][:pf.nlevels - 1]
+        if len(pf.ratios) < pf.nlevels - 1:
+            pf.ratios = (pf.ratios + [2, 4, 2])[:pf.nlevels - 1]
+        pf.meta['ratios'] = list(pf.ratios)
+    count(f"refinement ratios={pf.meta.get('ratios', 'all 2')}")
     keys = c01.reader_keys(pf.fields)
     fidx = {k: i for i, k in enumerate(keys)}
     img = diskimg.image_of(pf)
@@ -201,7 +209,7 @@ def run_case(seed):
                     sys.argv = old_argv
             res = core.outcome(run_cli)
         else:
-            res = core.outcome(lambda: Chef(plotfile=path, recipe=rpath, outfile=outp, kept_fields=kept, serial=serial).cook())
+            res = core.outcome(lambda: core.kept_alive(Chef(plotfile=path, recipe=rpath, outfile=outp, kept_fields=kept, serial=serial)).cook())
         core.set_policy('identity', 0)
         out['evals'] += 1
         out['keys'].append(core.khash(seed, k))
@@ -398,8 +406,8 @@ def run_builtin_case(seed):
         desc = dict(seed=seed, builtin_recipe=recipe, species=species, reactions=reactions, kept_fields=kept, pressure_atm=pressure,
                     serial=serial, fields=keys, mechanism=MECH, meta=pf.meta)
         core.set_policy(rng.choice(['identity', 'reverse', 'random']), seed + k)
-        res = core.outcome(lambda: Chef(plotfile=path, recipe=recipe, outfile=outp, species=species, reactions=reactions, mech=MECH,
-                                        pressure=pressure, kept_fields=kept, serial=serial).cook())
+        res = core.outcome(lambda: core.kept_alive(Chef(plotfile=path, recipe=recipe, outfile=outp, species=species, reactions=reactions, mech=MECH,
+                                        pressure=pressure, kept_fields=kept, serial=serial)).cook())
         core.set_policy('identity', 0)
         out['evals'] += 1
         out['keys'].append(core.khash(seed, 'builtin', k))
